@@ -16,6 +16,7 @@ import YaraModel.Lemmas.ArenaExample
 import YaraModel.Lemmas.ArenaGrow
 import YaraModel.Lemmas.ArenaSeq
 import YaraModel.Lemmas.ArenaExec
+import YaraModel.Lemmas.ArenaFlags
 namespace YaraModel.Arena
 open YaraModel.Gen.ArenaLayout
 
@@ -238,5 +239,21 @@ example : ∃ a₁' a₂' outs, runOut {} exBases₁ (create 2 1) exOps = .ok (a
         exBases₁ exBases₂ had₁ had₂ hr₁ hr₂
       subst ho
       exact ⟨a₁', a₂', o₁, rfl, rfl, hs, c₁.1, c₁.2.1, by rw [c₁.2.2.1, c₂.1]; decide, by rw [c₁.2.2.2, c₂.2]; decide⟩
+
+/-- **Nothing unspecified.** The abstract content ignores one thing the model tracks: whether a zeroed allocation was
+    served from spare capacity that was never cleared (`unspec`; arena.c clears only on the growth path — which
+    capacity-dependent runs reach at different moments).  If the operation list never sends a zeroed allocation
+    (allocate_zeroed_memory / allocate_struct) to a buffer that earlier received a raw one (write_data) — `KindsOK`,
+    decidable, a property of the list alone; the compiler's buffers are each of one kind — then, whatever the
+    configuration and the allocator, the flag is never raised: every byte of the final arena is the one `abs` shows. -/
+theorem run_defined (cfg : Cfg) (bases : List Nat) (ops : List Op) {a a' : Arena} {raws : List Nat} {outs : List Out}
+    (hd : ∀ j, (a.bufAt j).dirty = true → j ∈ raws) (hu : a.unspec = false) (hk : KindsOK raws ops = true)
+    (hr : runOut cfg bases a ops = .ok (a', outs)) : a'.unspec = false :=
+  runOut_unspec cfg ops bases a raws a' outs hd hu hk hr
+
+/-- … in particular from `yr_arena_create`; the example session sends zeroed allocations to buffer 0 and raw ones to buffer 1 -/
+example (cfg : Cfg) (init : Nat) (bases : List Nat) {a' : Arena} {outs : List Out}
+    (hr : runOut cfg bases (create 2 init) exOps = .ok (a', outs)) : a'.unspec = false :=
+  run_defined cfg bases exOps (dirtyIn_create 2 init) rfl (by decide) hr
 
 end YaraModel.Arena
